@@ -66,4 +66,27 @@ theorem decode_err_prefix (p s : List Nat) (hp : p <+: s) (h : (decodeUtf8 s).1 
   · have := decode_prefix_stable p s hp (decodeUtf8 p).1 (decodeUtf8 p).2 rfl hc
     rw [this] at h; exact absurd h hc
 
+theorem decodeAt_chunk (read : Read) (bytes : List Nat) (pos : Nat) :
+    (decodeAt read bytes pos).2.2 = none ∨ (decodeAt read bytes pos).2.2 = some (read pos) := by
+  unfold decodeAt
+  simp only
+  split
+  · exact Or.inl rfl
+  · split
+    · split <;> exact Or.inr rfl
+    · split <;> exact Or.inl rfl
+
+theorem drop_prefix (chunk text : List Nat) (cs pos : Nat) (h : chunk <+: text.drop cs)
+    (h1 : cs ≤ pos) (h2 : pos < cs + chunk.length) :
+    chunk.drop (pos - cs) <+: text.drop pos ∧ chunk.drop (pos - cs) ≠ [] := by
+  obtain ⟨t, ht⟩ := h
+  refine ⟨⟨t, ?_⟩, ?_⟩
+  · have : (chunk ++ t).drop (pos - cs) = chunk.drop (pos - cs) ++ t :=
+      List.drop_append_of_le_length (by omega)
+    rw [← this, ht, List.drop_drop]
+    congr 1; omega
+  · intro he
+    have := congrArg List.length he
+    simp at this; omega
+
 end TsVerif.C09
